@@ -50,7 +50,7 @@ def make_model(kind, seed):
     ops = {'li': li, 'o1': o1, 'cpl': cpl, 'cp1': cpl1}
     etp = {'ce': EdgeTplSpec('ce', ['cpl']), 'c1': EdgeTplSpec('c1', ['cp1'])}
     # coupling/delay/spread kinds mostly with >= 2 units (size-1 populations hit the recorded n=1 finding)
-    lo = 1 if (kind in ('matrix', 'scalar') or seed % 5 == 4) else 2
+    lo = 1 if (kind in ('matrix', 'scalar') or (seed % 5 == 4 and kind not in ('delay2', 'spread2'))) else 2
     na = rnd.randint(lo, 3)
     nb = rnd.randint(lo, 3)
     if kind == 'xcoupling' and seed % 4 < 2:
@@ -96,6 +96,16 @@ def make_model(kind, seed):
         # multiples of the step and off-grid values (2.625 and 2.6 steps round to 3, 2.375 to 2)
         conns.append(Conn('a/li/x', 'b/o1/u', Wm(nb, na), delay=DT * rnd.choice([2, 3, F(21, 8), F(13, 5), F(19, 8)])))
         conns.append(Conn('b/o1/x', 'a/li/u', Wm(na, nb)))
+    elif kind == 'delay2':
+        # two delayed Connectivity objects read the SAME source variable with different delays
+        d1, d2 = rnd.choice([(2, 3), (3, 2), (2, 4)])
+        conns.append(Conn('a/li/x', 'b/o1/u', Wm(nb, na), delay=DT * d1))
+        conns.append(Conn('a/li/x', 'b/o1/w', Wm(nb, na), delay=DT * d2))
+        conns.append(Conn('b/o1/x', 'a/li/u', Wm(na, nb)))
+    elif kind == 'spread2':
+        conns.append(Conn('a/li/x', 'b/o1/u', Wm(nb, na), delay=F(1, 2), spread=F(1, 4)))
+        conns.append(Conn('a/li/x', 'b/o1/w', Wm(nb, na), delay=F(1), spread=F(2, 3)))
+        conns.append(Conn('b/o1/x', 'a/li/u', Wm(na, nb)))
     elif kind == 'spread':
         d, s = rnd.choice([(F(1, 2), F(1, 4)), (F(1), F(2, 3)), (F(1), F(1, 2)), (F(1, 2), F(1, 2))])
         conns.append(Conn('a/li/x', 'b/o1/u', Wm(nb, na), delay=d, spread=s))
@@ -119,9 +129,9 @@ def job_fn(job):
     except tv.CompileError as e:
         return dict(status='compile-raises', error=str(e), exp_spec=spec)
     plugin = None
-    if job['kind'] == 'delay':
+    if job['kind'] in ('delay', 'delay2'):
         plugin = tvdelay.RingBufferPlugin(DT)
-    elif job['kind'] == 'spread':
+    elif job['kind'] in ('spread', 'spread2'):
         plugin = tvdelay.ChainPlugin()
     res = tvspec.validate(spec, c, tally, vectorized=True, plugin=plugin, t_sym=2)
     r = dict(status='ok', res=res, tally=tally.as_dict(), src=c.src, keys=list(c.keys),
@@ -201,7 +211,7 @@ def run(tier='quick', seed=0, only=None, verbose=False):
         assumptions=['reals for floats', 'dynamic (state-bearing) coupling edges are not generated yet',
                      'zero matrix entries mean no edge'])
     jobs = []
-    kinds = ['matrix', 'scalar', 'coupling', 'xcoupling', 'delay', 'spread']
+    kinds = ['matrix', 'scalar', 'coupling', 'xcoupling', 'delay', 'spread', 'delay2', 'spread2']
     n = 4 if tier == 'quick' else 30
     for kind in kinds:
         for i in range(n):
